@@ -39,6 +39,7 @@ type Engine struct {
 	VrtPath         string          // import path of the overlaid runtime package
 	LogDir          string
 	Trace           bool
+	Thorough        bool
 	SessionPaths    int // recycle solver/context after this many paths
 	Substitute      map[string]string // fn name -> replacement fn name (spec substitution, layering)
 	NativeImport    func(i *NativeCtx, name string, args []interface{}) (interface{}, bool)
@@ -488,6 +489,7 @@ type Summary struct {
 	InternalAsm map[string]int
 	WallS       float64
 	PanicMsgs   map[string]int
+	Trivial     int
 }
 
 // Explore runs all paths of a harness.
@@ -540,6 +542,7 @@ func (e *Engine) Explore(fn *ssa.Function, workers []*Worker, opts ExploreOpts) 
 					sum.InternalAsm[a]++
 				}
 				sum.Instrs += res.Instrs
+				sum.Trivial += res.Trivial
 				sum.Queries += res.Queries
 				switch res.Outcome {
 				case "unsupported":
